@@ -103,5 +103,11 @@ void h_str_compare(void)
 	__CPROVER_assert(str_compare_0(&a, &b) == -str_compare_0(&b, &a), "compare() is antisymmetric");
 	struct sv v = str_conv_basic_string_view(&a);
 	__CPROVER_assert(v._pointer == a._buffer && v._length == n, "conversion to a view denotes the same characters");
+	/* the C-string overloads: b's buffer is NUL-terminated; it denotes its characters up to the first NUL */
+	size_t bl = 0; while (bl < m && b._buffer[bl] != 0) bl++;
+	_Bool same_c = (n == bl); for (size_t i = 0; i < STR_L; i++) if (i < n && i < bl && a._buffer[i] != b._buffer[i]) same_c = 0;
+	__CPROVER_assert((str_compare_1(&a, b._buffer) == 0) == same_c, "compare(const char *) == 0 iff same length and content as the C string");
+	__CPROVER_assert(str_op_eq_1(&a, b._buffer) == same_c, "operator==(const char *) is length and content equality");
+	__CPROVER_assert(n == bl || str_compare_1(&a, b._buffer) == (n < bl ? -1 : 1), "compare(const char *) orders by length first");
 	FRGV_CANARY(); str_dtor(&a); str_dtor(&b);
 }
